@@ -823,6 +823,17 @@ func (x *vc) stdlibModel(fr *frame, st *state, callee *ssa.Function, args []Val,
 		return r, true
 	case "strconv.Itoa", "strconv.FormatInt", "strconv.FormatFloat", "strconv.Quote", "fmt.Sprintf", "fmt.Sprint", "fmt.Sprintln":
 		return x.freshVal("fmt", resT, st), true
+	case "strconv.Atoi":
+		// a decimal numeral of k characters (sign included) has magnitude below 10^k
+		r := x.freshResult(st, resT, "atoi")
+		if len(r.Tuple) == 2 && len(args) == 1 {
+			x.trusted["strconv.Atoi: the value of a numeral of k characters is below 10^k in magnitude (k <= 4 used)"] = true
+			for k, lim := range map[string]string{"1": "9", "2": "99", "3": "999", "4": "9999"} {
+				x.assume(st.guard, implies(app("<=", app("slen", args[0].T), k), and(app("<=", "(- "+lim+")", r.Tuple[0].T), app("<=", r.Tuple[0].T, lim))))
+			}
+			x.assume(st.guard, implies(not(eq(app("itag", r.Tuple[1].T), "0")), not(eq(app("ival", r.Tuple[1].T), "0"))))
+		}
+		return r, true
 	case "strconv.ParseInt":
 		// documented: the result fits the requested bit size (0 means int); on error the value is still in that range
 		r := x.freshResult(st, resT, "parseint")
